@@ -15,6 +15,12 @@ ID = "C11"
 TITLE = "Convention detection and binding are deterministic and stable"
 MC = {"quick": [("MC_C11_defs", "MC_C11_quick.cfg", 16)], "thorough": [("MC_C11_defs", "MC_C11.cfg", 16)]}
 TRACE = ("Trace_C11", "Trace_C11.cfg")
+# the binding part of the machine, typed for Apalache: IndInv holds initially, is preserved by every step from ANY state
+# satisfying it, and every such step satisfies the action properties (so they hold at any depth, not only TLC's)
+INDUCTIVE = {"quick": [], "thorough": [
+    {"module": "Binding", "cinit": "CInit", "init": "Init", "inv": "IndInv", "length": 0},
+    {"module": "Binding", "cinit": "CInit", "init": "IndInit", "inv": "IndInv", "length": 1},
+    {"module": "Binding", "cinit": "CInit", "init": "IndInit", "inv": "ActionInv", "length": 1}]}
 REQUIRED = ["Register", "Detect", "Access", "Construct", "Bind", "Copy", "access-refused", "bind-refused", "bind-ok",
             "builtin-tie", "manual-wins", "builtin-registered", "nothing-matches", "access-cached", "access-after-manual-bind",
             "detected-CFGrid1D", "detected-CFGrid2D", "detected-ShocSimple", "detected-ShocStandard", "detected-UGrid",
